@@ -329,6 +329,13 @@ def b_programs(tier, seed):
     b.exhaustive = False
     for label, e in pool(tier, seed):
         check_expr(b, label, e)
+    # wide n-ary nodes (hundreds of operands): every path still produces code that runs
+    import pymbolic.primitives as p
+    for n in (40, 250):
+        vs = [p.Variable(f"w{i:03d}") for i in range(n)]
+        check_expr(b, f"wide-sum-{n}", p.Sum(tuple(p.Product((i + 1, v)) for i, v in enumerate(vs))))
+        check_expr(b, f"wide-product-{n}", p.Product(tuple(p.Sum((v, 1 if i % 2 else -1)) for i, v in enumerate(vs[:n // 2]))))
+        check_expr(b, f"wide-mixed-{n}", p.Sum(tuple(vs[:n // 2]) + (p.Product(tuple(vs[n // 2:])),)))
     return b
 
 
